@@ -261,7 +261,17 @@ func replay(args map[string]string) error {
 				ev["m"], ev["p"], ev["l"], ev["o"] = m, p, l, o
 				a := n.alloc
 				target := tsoutil.ComposeTS(w.base.UnixNano()/1e6+int64(p), int64(l))
-				pr := w.sched.Go(m+"/reset", func() (interface{}, error) { return nil, a.SetTSO(target) })
+				// every other reset takes the path of a maximum written by a global request (ignoreSmaller)
+				maxts := (bi+si)%2 == 1
+				if maxts {
+					ev["via"] = "maxts"
+				}
+				pr := w.sched.Go(m+"/reset", func() (interface{}, error) {
+					if maxts {
+						return nil, tso.VerifWriteMaxTS(a, target)
+					}
+					return nil, a.SetTSO(target)
+				})
 				_, done, err := pr.Next(wait)
 				if err != nil {
 					return err
